@@ -162,6 +162,12 @@ struct SS {
                 case ERASE_RANGE: {
                     auto f = op.a % (sz + 1);
                     auto l = f + pick(op.b, sz - f);
+                    // known-finding exclusion (only if the finding is recorded as open and still reproduces): the pinned
+                    // erase(first,last) loop runs past end() exactly when the range is longer than the tail behind it + 1
+                    if (vf::ctx().excluded("static_set.erase_range") && (l - f) > (sz - l) + 1) {
+                        vf::excluded_known("static_set.erase_range");
+                        while ((l - f) > (sz - l) + 1) { --l; }
+                    }
                     (void)x.erase(x.begin() + static_cast<std::ptrdiff_t>(f), x.begin() + static_cast<std::ptrdiff_t>(l));
                     h.middle |= (f > 0 && l > f && l < sz);
                     break;
@@ -298,7 +304,7 @@ struct SS {
             }
         }
         if (h.err.empty()) { h.err = lt::check_empty(); }
-        h.labels("static_set", stats, k, MA ? "mvsf" : "mv");
+        h.labels("static_set", stats, k, MA ? (N >= 3 ? "mvsf" : "vsf") : (N >= 3 ? "mv" : "v"));
         return h.err;
     }
 };
@@ -644,7 +650,7 @@ struct FS {
             }
         }
         if (h.err.empty()) { h.err = lt::check_empty(); }
-        h.labels("flat_set", stats, k, MA ? "mvsf" : "mv");
+        h.labels("flat_set", stats, k, MA ? (N >= 3 ? "mvsf" : "vsf") : (N >= 3 ? "mv" : "v"));
         return h.err;
     }
 };
